@@ -322,8 +322,32 @@ class Forall(Expr):
     def subst(self, inst):
         if self.var.name in inst:
             raise NotImplementedError
+        # The bound variable must not be captured: it may not occur in
+        # any of the expressions that are substituted in.
+        if any(occurs_var(t, self.var.name) for t in inst.values()):
+            raise NotImplementedError
 
         return Forall(self.var, self.e.subst(inst))
+
+
+def occurs_var(e, name):
+    """Whether a variable with the given name occurs free in e."""
+    if isinstance(e, Var):
+        return e.name == name
+    elif isinstance(e, Const):
+        return False
+    elif isinstance(e, ArrayElt):
+        return occurs_var(e.ident, name) or occurs_var(e.idx, name)
+    elif isinstance(e, Field):
+        return occurs_var(e.ident, name)
+    elif isinstance(e, (Op, Fun)):
+        return any(occurs_var(arg, name) for arg in e.args)
+    elif isinstance(e, ITE):
+        return occurs_var(e.cond, name) or occurs_var(e.e1, name) or occurs_var(e.e2, name)
+    elif isinstance(e, Forall):
+        return e.var.name != name and occurs_var(e.e, name)
+    else:
+        raise NotImplementedError
 
 
 def implies(e1, e2):
